@@ -279,9 +279,14 @@ fn confirm(v: &Value) -> Result<(), String> {
     match v["pass"].as_str().unwrap_or("") {
         "turns" => {
             let g = |k: &str| v[k].as_str().unwrap_or("").to_string();
-            match turns_compare(&g("profile"), &g("prelude"), &g("word"), &g("sizes"), v["thread"].as_u64().unwrap_or(1) as usize, None) {
+            let th = v["thread"].as_u64().unwrap_or(1) as usize;
+            match turns_compare(&g("profile"), &g("prelude"), &g("word"), &g("sizes"), th, None) {
+                Err(m) if m.starts_with("HANG") => Err("the schedule does not end".to_string()),
                 Err(m) => Err(format!("machinery: {m}")),
-                Ok(r) => r,
+                // the values in the message may differ from run to run (a racy or clock-dependent generator);
+                // what must reproduce is that the thread's result differs from the same thread alone
+                Ok(Err(_)) => Err(format!("thread {th} ends with another treap than when it takes its turns alone")),
+                Ok(Ok(())) => Ok(()),
             }
         }
         "miri" => {
@@ -356,6 +361,8 @@ fn main() {
     // ---- turns pass (real crate, real threads, every order of batches) --------------------------------
     let mut turn_summ = vec![];
     let mut turn_execs = 0u64;
+    // what the turns pass could not decide; a machinery failure only if no pass reports a violation
+    let mut turn_problems: Vec<String> = vec![];
     {
         // (first node creations in this order, batches per thread, batch sizes)
         let cfgs: Vec<(&str, usize, &str)> = if quick {
@@ -364,6 +371,12 @@ fn main() {
             vec![("12", 3, "3,4500,40"), ("21", 3, "3,4500,40"), ("123", 2, "4500,300"), ("321", 2, "70,4500"), ("12", 2, "70000,5000"), ("123", 3, "3,4500,40"), ("1234", 2, "4500,300")]
         };
         for profile in ["release", "dbg"] {
+            if run.has_violations() {
+                // the Miri pass has a verdict already (undefined behaviour, duplicated draws, wrong results);
+                // code with a data race gives no stable picture on real threads, so nothing is added here
+                turn_summ.push(json!({"build": profile, "skipped": "the Miri pass reported a violation"}));
+                continue;
+            }
             if turns_bin(profile).is_none() {
                 if profile == "release" {
                     run.machinery_failure("c17_turns (release) is not built");
@@ -381,7 +394,10 @@ fn main() {
                     for _ in 0..2 {
                         match turns_run(profile, prelude, &w, sizes) {
                             Ok(r) => two.push(r.get(th - 1).cloned().unwrap_or(Value::Null)),
-                            Err(m) => run.machinery_failure(&format!("turns pass, thread {th} alone: {m}")),
+                            Err(m) => {
+                                turn_problems.push(format!("turns pass, thread {th} alone ({profile}, first creations {prelude}, batches {sizes}): {m}"));
+                                two.push(json!({"panicked": "no result"}));
+                            }
                         }
                         turn_execs += 1;
                     }
@@ -391,7 +407,10 @@ fn main() {
                     alone.push(two.swap_remove(0));
                 }
                 if alone.iter().any(|a| !a["panicked"].is_null()) {
-                    run.machinery_failure(&format!("turns pass: a thread panics when it takes its turns alone: {:?}", alone));
+                    // no reference to compare with: not this pass's verdict (the sequential checks C03 / C16 judge
+                    // what one thread does alone)
+                    turn_problems.push(format!("turns pass ({profile}, first creations {prelude}, batches {sizes}): a thread panics or gives no result when it takes its turns alone: {}", alone.iter().map(|a| a["panicked"].to_string()).collect::<Vec<_>>().join(" / ")));
+                    continue;
                 }
                 let words = turn_words(t, *s);
                 let results: Vec<(String, usize, Result<Result<(), String>, String>)> = {
@@ -435,7 +454,7 @@ fn main() {
                             bad += 1;
                             run.violation(Violation::new(format!("turns:{profile}:prelude={prelude}:sizes={sizes}:word={w}:hang"), m, json!({"pass": "turns", "profile": profile, "prelude": prelude, "word": w, "sizes": sizes, "thread": th})));
                         }
-                        Err(m) => run.machinery_failure(&format!("turns pass: {m}")),
+                        Err(m) => turn_problems.push(format!("turns pass: {m}")),
                         Ok(Ok(())) => {}
                         Ok(Err(m)) => {
                             bad += 1;
@@ -558,6 +577,11 @@ fn main() {
     run.assume("loom models the primitives that build.rs reroutes (thread_local!, std::sync, std::thread, non-mut statics); accesses it does not intercept (static mut, raw UnsafeCell) are covered only by the free-running Miri pass, one execution per configuration");
     if !race_found && execs == 0 && loom_limit.is_none() {
         run.machinery_failure("no loom execution was counted");
+    }
+    if !run.has_violations() {
+        if let Some(p) = turn_problems.first() {
+            run.machinery_failure(p);
+        }
     }
     if run.samples_empty() {
         run.sample(json!({"note": "no loom outcome sampled: the Miri pass reported undefined behaviour first"}));
